@@ -25,6 +25,15 @@ CHECKS = {
          'semantics); every recorded edit is validated by TLC: SliceLaw (field = old[:s]+new+old[t:] computed by the '
          'spec from raw bounds), NothingElse (OnlyChangedAt), OracleAgree (pure-AST surgery), CarriedOutNotRefused.',
          'TLC model checking of Containers spec + TLA+ trace validation of recorded edits'),
+ 'C05': ('model_checking', '4-C05',
+         'Trace validation against an explicit TLA+ definition of every parse mode (ParseModes.tla: tight embeddings '
+         'written from the grammar, sub-tree path, shift, wrapper-escape rule; table totality and shift/acceptance '
+         'algebra model-checked exhaustively on a small grid) over ~14k (quick) / ~80k (thorough) real pfst parse calls: '
+         'every corpus node text x 14 layouts x every admitting mode, cross-mode, guessing modes, delimiter-derived '
+         'escapes, the repository invalid inputs and token mutants. Within these generated inputs, not all texts.',
+         'TLC emits the mode table (G); CPython parse + tokenize of the spec embeddings are logged as oracle facts and '
+         'ParseTrace.tla judges TextKept, TreeIsSubtree.struct/pos, KindAdmitted, RejectedOnlyIfInvalid, '
+         'AcceptedOnlyIfValid per call (V)'),
  'C12': ('model_checking', '4-C12',
          'Registry.tla (enter/success/fail brackets with a fault after every step) is model-checked for Quiescent/'
          'Balanced/NextEditEnabled; histories mixing failing and valid requests on the real code are validated by TLC: '
